@@ -1,4 +1,5 @@
 """C03 Stored diagram well-formed; level bookkeeping"""
+import ewho
 import ereduce
 import ecanon
 import eunits
@@ -25,5 +26,10 @@ def run(ctx):
     n = ereduce.run(ctx, F)
     ctx.floor("E-TABLE.reduce", "abstract situations of the reduce functions", n, 400)
     ecanon.check_level_swap_order(ctx, F)
+    ctx.explain("E-WHO: the operations that temporarily break the level invariants (swap, take, insert_unchecked, "
+                "get_or_insert_unchecked, set_child, set_level) are called only from oxidd-reorder; node-removal "
+                "primitives only from gc / try_remove_node / level views, gated by reorder_gc_prepared / "
+                "allow_node_removal; level_swap uses the unchecked insertions only.")
+    ewho.run(ctx, F)
     ctx.not_decided = ("uniqueness/reducedness of the stored graph after arbitrary histories; minimal node counts; "
                        "the then-edge regularity of complement-edge nodes (planned tag-lattice rule)")
